@@ -190,3 +190,44 @@ def check_scat_grad(cfg, sizes, rnd):
         if abs(fd - an) > 1e-5 * (1 + abs(fd)):
             return False, 'order %d colour=%s %s: directional derivative %.8g vs back-propagated %.8g' % (order, colour, kw['biort'], fd, an)
     return True, 'order %d gradient ok' % order
+
+
+@register('scat_grad_ref')
+def check_scat_grad_ref(cfg, sizes, rnd):
+    """first-order layer: back-propagated gradient vs autograd through an independent composition (real DTCWTForward level 1,
+    whose own gradient is C06, + torch ops for pooling and the smooth magnitude), over bias / image-scale regimes including
+    bias << 1e-6 and images of amplitude 1e-9 (where a guarded or clamped phase would show)"""
+    from pytorch_wavelets.scatternet import ScatLayer
+    from pytorch_wavelets import DTCWTForward
+    import torch.nn.functional as F
+    biort = cfg.get('biort', 'near_sym_a')
+    colour = cfg.get('colour', False)
+    C = 3 if colour else 2
+    rs = np.random.RandomState(rnd.randint(0, 10**6))
+    for b, scale in cfg.get('regimes', [(1e-2, 1.0), (1e-7, 1e-7), (1e-9, 1e-4), (1e-1, 1e-9), (1e-3, 1e3), (1e-8, 1e-8)]):
+        layer = _build64(ScatLayer, biort=biort, magbias=b, combine_colour=colour)
+        xf = _build64(DTCWTForward, biort=biort, J=1)
+        x0 = rs.randn(2, C, 8, 12) * scale
+        x0[:, :, :, 6:] *= 1e-3                       # a much flatter half
+        x = torch.tensor(x0, requires_grad=True)
+        z = layer(x)
+        g = torch.tensor(rs.randn(*z.shape))
+        (z * g).sum().backward()
+        xr = torch.tensor(x0, requires_grad=True)
+        yl, (yh,) = xf(xr)
+        ll = F.avg_pool2d(yl, 2)
+        if colour:
+            mag = torch.sqrt((yh[..., 0] ** 2 + yh[..., 1] ** 2).sum(dim=1) + b * b) - b          # (N,6,h,w)
+            zr = torch.cat((ll, mag), dim=1)
+        else:
+            mag = torch.sqrt(yh[..., 0] ** 2 + yh[..., 1] ** 2 + b * b) - b                        # (N,C,6,h,w)
+            zr = torch.cat((ll.unsqueeze(1), mag.transpose(1, 2)), dim=1).reshape(z.shape)
+        if float((z - zr).abs().max()) > 1e-9 * (scale + b):
+            return False, 'ScatLayer %s colour=%s bias=%g scale=%g: forward differs from the reference composition' % (biort, colour, b, scale)
+        (zr * g).sum().backward()
+        err = float((x.grad - xr.grad).abs().max())
+        ref = float(xr.grad.abs().max())
+        if not np.isfinite(err) or err > 1e-7 * ref + 1e-300:
+            return False, 'ScatLayer %s colour=%s bias=%g image-scale=%g: back-propagated gradient differs from autograd of the same function (err %.3g, |grad| %.3g)' % (
+                biort, colour, b, scale, err, ref)
+    return True, 'scat_grad_ref %s colour=%s ok' % (biort, colour)
